@@ -23,7 +23,7 @@ OPS = {
     0x00: "STOP", 0x01: "ADD", 0x02: "MUL", 0x03: "SUB", 0x04: "DIV", 0x05: "SDIV", 0x06: "MOD", 0x07: "SMOD", 0x08: "ADDMOD", 0x09: "MULMOD", 0x0A: "EXP", 0x0B: "SIGNEXTEND",
     0x10: "LT", 0x11: "GT", 0x12: "SLT", 0x13: "SGT", 0x14: "EQ", 0x15: "ISZERO", 0x16: "AND", 0x17: "OR", 0x18: "XOR", 0x19: "NOT", 0x1A: "BYTE", 0x1B: "SHL", 0x1C: "SHR", 0x1D: "SAR",
     0x20: "SHA3", 0x30: "ADDRESS", 0x32: "ORIGIN", 0x33: "CALLER", 0x34: "CALLVALUE", 0x35: "CALLDATALOAD", 0x36: "CALLDATASIZE", 0x37: "CALLDATACOPY", 0x38: "CODESIZE", 0x39: "CODECOPY",
-    0x3D: "RETURNDATASIZE", 0x3E: "RETURNDATACOPY", 0x50: "POP", 0x51: "MLOAD", 0x52: "MSTORE", 0x53: "MSTORE8", 0x54: "SLOAD", 0x55: "SSTORE", 0x56: "JUMP", 0x57: "JUMPI", 0x58: "PC", 0x59: "MSIZE",
+    0x3B: "EXTCODESIZE", 0x3C: "EXTCODECOPY", 0x3F: "EXTCODEHASH", 0x3D: "RETURNDATASIZE", 0x3E: "RETURNDATACOPY", 0x50: "POP", 0x51: "MLOAD", 0x52: "MSTORE", 0x53: "MSTORE8", 0x54: "SLOAD", 0x55: "SSTORE", 0x56: "JUMP", 0x57: "JUMPI", 0x58: "PC", 0x59: "MSIZE",
     0x5B: "JUMPDEST", 0x5C: "TLOAD", 0x5D: "TSTORE", 0x5E: "MCOPY", 0x5F: "PUSH0", 0xF3: "RETURN", 0xFD: "REVERT", 0xFE: "INVALID",
 }
 ARITY = {"ADD": 2, "MUL": 2, "SUB": 2, "DIV": 2, "SDIV": 2, "MOD": 2, "SMOD": 2, "ADDMOD": 3, "MULMOD": 3, "EXP": 2, "SIGNEXTEND": 2, "LT": 2, "GT": 2, "SLT": 2, "SGT": 2, "EQ": 2, "ISZERO": 1,
@@ -122,7 +122,7 @@ def run(code, calldata=b"", address=0, caller=0, origin=0, value=0, storage=None
                     raise Halt("underflow")
                 stack[-1], stack[-1 - n] = stack[-1 - n], stack[-1]
             elif name is None:
-                raise Halt("unsupported" if op in (0x31, 0x3A, 0x3B, 0x3C, 0x3F, 0x40, 0x41, 0x42, 0x43, 0x44, 0x45, 0x46, 0x47, 0x48, 0x5A, 0xA0, 0xA1, 0xA2, 0xA3, 0xA4, 0xF0, 0xF1, 0xF2, 0xF4, 0xF5, 0xFA, 0xFF) else "invalid")
+                raise Halt("unsupported" if op in (0x31, 0x3A, 0x40, 0x41, 0x42, 0x43, 0x44, 0x45, 0x46, 0x47, 0x48, 0x5A, 0xA0, 0xA1, 0xA2, 0xA3, 0xA4, 0xF0, 0xF1, 0xF2, 0xF4, 0xF5, 0xFA, 0xFF) else "invalid")
             elif name in ARITY:
                 args = [pop() for _ in range(ARITY[name])]
                 push(PY[name](*args))
@@ -156,6 +156,17 @@ def run(code, calldata=b"", address=0, caller=0, origin=0, value=0, storage=None
                 if size:
                     touch(dst, size, True)
                     mwrite(dst, pad(code, off, size))
+            elif name == "EXTCODESIZE":
+                a = pop() % (1 << 160)
+                push(len(code) if a == address else 0)  # single-frame world: no other account has code
+            elif name == "EXTCODECOPY":
+                a, dst, off, size = pop() % (1 << 160), pop(), pop(), pop()
+                if size:
+                    touch(dst, size, True)
+                    mwrite(dst, pad(code if a == address else b"", off, size))
+            elif name == "EXTCODEHASH":
+                a = pop() % (1 << 160)
+                push(int.from_bytes(keccak(bytes(code)), "big") if a == address else 0)  # other accounts do not exist
             elif name == "RETURNDATASIZE":
                 push(0)
             elif name == "RETURNDATACOPY":
